@@ -42,6 +42,9 @@ def typenames(I, v):
         return {"int": {"int"}, "real": {"float"}, "bool": {"bool", "int"}, "str": {"str"}}[v.kind]
     if isinstance(v, MsgVal):
         return {"Msg", "tuple"}
+    from .vals import RLESeq
+    if isinstance(v, RLESeq):
+        return {"tuple"} if v.is_tuple else {"list"}
     if isinstance(v, tuple):
         return {"tuple"}
     if isinstance(v, list):
@@ -525,6 +528,25 @@ def special_iter(I, v):
 
 
 def special_binop(I, op, a, b):
+    from .vals import RLESeq
+    if isinstance(a, RLESeq) or isinstance(b, RLESeq):
+        if op == "+":
+            def segs(x):
+                if isinstance(x, RLESeq):
+                    if not (isinstance(x.times, int) and x.times == 1):
+                        raise EngineError("concatenation of a repeated run-length sequence")
+                    return list(x.segments), x.is_tuple
+                if isinstance(x, (list, tuple)):
+                    return [(y, 1) for y in x], isinstance(x, tuple)
+                raise EngineError(f"concatenation of run-length sequence with {x!r}")
+            (sa, ta), (sb, tb) = segs(a), segs(b)
+            if ta != tb:
+                I.raise_("TypeError", "can only concatenate list (not tuple) to list")
+            return RLESeq(sa + sb, 1, ta)
+        if op == "*":
+            seq, n = (a, b) if isinstance(a, RLESeq) else (b, a)
+            return seq_repeat(I, seq, n)
+        raise EngineError(f"{op} on run-length sequence")
     if op == "+" and isinstance(a, list) and isinstance(b, list):
         return a + b
     if op == "+" and isinstance(a, tuple) and isinstance(b, tuple):
@@ -581,12 +603,29 @@ def special_binop(I, op, a, b):
 
 
 def seq_repeat(I, seq, n):
+    """list/tuple * n; a symbolic n gives a run-length description (RLESeq)"""
+    from .vals import RLESeq
+    if isinstance(seq, RLESeq):
+        cnt = ops.ite(ops.compare("<", n, 0), 0, n) if isinstance(n, Sym) else max(n, 0)
+        return RLESeq(seq.segments, I.run(I.binop("*", seq.times, cnt)), seq.is_tuple)
     if isinstance(n, Sym):
-        h = I.w.stubs.get("seq_repeat")
-        if h is None:
-            raise EngineError("sequence repetition by a symbolic count needs a sequence model (stub 'seq_repeat')")
-        return h(I, seq, n)
+        cnt = ops.ite(ops.compare("<", n, 0), 0, n)
+        return RLESeq([(x, cnt) for x in seq], 1, isinstance(seq, tuple)) if len(seq) <= 1 else RLESeq([(x, 1) for x in seq], cnt, isinstance(seq, tuple))
     return seq * n
+
+
+def rle_len(I, v):
+    tot = 0
+    for _, c in v.segments:
+        tot = ops.binop("+", tot, c)
+    return I.run(I.binop("*", v.times, tot))
+
+
+def rle_sum(I, v):
+    tot = 0
+    for x, c in v.segments:
+        tot = ops.binop("+", tot, I.run(I.binop("*", x, c)))
+    return I.run(I.binop("*", v.times, tot))
 
 
 def special_compare(I, sym, a, b):
@@ -1072,6 +1111,11 @@ def make_builtins(I):
     @reg("len")
     def _len(I, a, k):
         v = a[0]
+        from .vals import RLESeq, SymSet
+        if isinstance(v, RLESeq):
+            return rle_len(I, v)
+        if isinstance(v, SymSet):
+            return len(v.items)
         if isinstance(v, (list, tuple, dict, set, frozenset, str, bytes, collections.deque, range)):
             return len(v)
         if isinstance(v, MsgVal):
@@ -1305,6 +1349,9 @@ def make_builtins(I):
 
     @reg("sum")
     def _sum(I, a, k):
+        from .vals import RLESeq
+        if isinstance(a[0], RLESeq):
+            return rle_sum(I, a[0])
         items = I.run(I.iterate(a[0]))
         acc = a[1] if len(a) > 1 else k.get("start", 0)
         for x in items:
@@ -1363,10 +1410,16 @@ def make_builtins(I):
 
     @reg("list")
     def _list(I, a, k):
+        from .vals import RLESeq
+        if a and isinstance(a[0], RLESeq):
+            return RLESeq(a[0].segments, a[0].times, False)
         return list(I.run(I.iterate(a[0]))) if a else []
 
     @reg("tuple")
     def _tuple(I, a, k):
+        from .vals import RLESeq
+        if a and isinstance(a[0], RLESeq):
+            return RLESeq(a[0].segments, a[0].times, True)
         return tuple(I.run(I.iterate(a[0]))) if a else ()
 
     @reg("dict")
